@@ -881,6 +881,9 @@ class OneToOne(dict):
                 hash(val)
                 keys_vals = list(dict_or_iterable.items())
         else:
+            if callable(getattr(dict_or_iterable, 'keys', None)):
+                dict_or_iterable = [(k, dict_or_iterable[k])
+                                    for k in dict_or_iterable.keys()]
             keys_vals = list(dict_or_iterable)
             for key, val in keys_vals:
                 hash(key)
